@@ -207,8 +207,13 @@ InitPL0 ==
        k \in PLKeys, n \in PLVals, bad \in BOOLEAN, cu \in {Absent, 2, NoPLCreator} :   \* NoPLCreator: the entry spells out the implicit level
        LET s0 == [WithMem(WithMem(BaseSt, "alice", "join"), "creator", "join") EXCEPT !.create.addl = addl]
            base == BasePL(2)
-       IN /\ st = IF haspl THEN WithPL(s0, base) ELSE s0
-          /\ ev = [PLEv([SetKey(base, k, n) EXCEPT !.baduser = bad, !.users["creator"] = cu]) EXCEPT !.sender = sender]
+       IN \/ /\ st = IF haspl THEN WithPL(s0, base) ELSE s0
+             /\ ev = [PLEv([SetKey(base, k, n) EXCEPT !.baduser = bad, !.users["creator"] = cu]) EXCEPT !.sender = sender]
+          \* a current power-levels event whose content is {}: it exists, so everybody - the create sender included -
+          \* is at users_default 0 and nothing of the "no power-levels event yet" defaults applies
+          \/ /\ haspl /\ ~bad /\ addl = {}
+             /\ st = WithPL(s0, EmptyPL)
+             /\ ev = [PLEv([SetKey(EmptyPL, k, n) EXCEPT !.users["creator"] = cu]) EXCEPT !.sender = sender]
 
 \* ---- versions: every version-sensitive rule, for ALL registered versions (also in the quick tier) ----------
 InitVersionEdges ==
